@@ -719,6 +719,7 @@ var droppedPrefixes = []string{
 	"github.com/hashicorp/go-metrics.",
 	"github.com/cosmos/cosmos-sdk/telemetry.",
 	"(*github.com/bandprotocol/chain/v3/pkg/logger.Logger).",
+	"(*github.com/bandprotocol/chain/v3/yoda.Logger).",
 }
 
 func isDroppedCall(name string) bool {
